@@ -9,7 +9,8 @@ from . import _c06_common as cm
 
 ID = 'C07'
 LG = 'mitxgraders/listgrader.py'
-FILES = [LG]
+MK = 'mitxgraders/helpers/munkres.py'
+FILES = [LG, MK]
 
 EXPLANATION = (
     "Normal-form / ordering / role rules over listgrader.py against the reference formula A5 "
@@ -28,7 +29,9 @@ EXPLANATION = (
     "get_padded_lists pads both lists to the common maximum without mutating its arguments; (D6) infer_from_expect splits "
     "on the grader's own delimiter and, if it recurses, recurses into the *nested* grader's infer_from_expect (the recursion "
     "itself is redundant with the nested grader's post_schema_ans_val and is not demanded); post_schema_ans_val converts "
-    "exactly the string entries.")
+    "exactly the string entries; (D7) for unordered lists the Munkres solver itself is pinned to the reviewed reference by the "
+    "C06 rule families INIT / RESULT / STEPS (per-cell effect tables of every step): necessary structural conditions of an optimal "
+    "matching, not a proof of optimality.")
 NOT_DECIDED = (
     "permutation invariance and the exhaustive optimum of the unordered matching (they rest on C06's undecided "
     "optimality clause; C05-D2 decides only that the right matrix is handed over and read back), floating-point "
@@ -46,6 +49,7 @@ def check(ctx):
     d4_check_response(ctx, idx)
     d5_padding(ctx, idx)
     d6_infer(ctx, idx)
+    d7_solver(ctx, idx)
 
 
 # ------------------------------------------------------------------------------- D1
@@ -1053,6 +1057,17 @@ def d6_infer(ctx, idx):
                     'conversion uses `%s`' % short(c.func), where)
 
 
+# ------------------------------------------------------------------------------- D7
+def d7_solver(ctx, idx):
+    """The statement of this property demands an *optimal* one-to-one assignment; the solver is pinned to the reviewed
+    reference (C06.D2 INIT, C06.D3 RESULT, C06.D4 STEPS) here as well, so a change of the solver is reported under this id."""
+    from . import c06
+    r = ctx.rule('D7.SOLVER', 'the assignment solver equals the reviewed Munkres reference (state re-initialised per solve, '
+                 'result extraction, step table, per-cell step effects) -- a pin to the reference, not a proof of optimality', floor=72)
+    with r:
+        c06.solver_rules(r, idx)
+
+
 # ------------------------------------------------------------------------ self-test
 _LEN_BLOCK = ("        if self.config['length_error'] and len(answers) != len(student_list):\n"
               "            msg = 'List length error: Expected {} terms in the list, but received {}. ' + \\\n"
@@ -1137,6 +1152,13 @@ MUTANTS = [
     Mutant('pad-in-place', LG, "    padded1 = list1 + [_AutomaticFailure()]*(maxlen-len(list1))", "    list1 += [_AutomaticFailure()]*(maxlen-len(list1))\n    padded1 = list1", 'D5'),
     Mutant('padded-check-unwrapped', LG, "        return check(ans, inp)\n    return _check", "        return check(ans, inp)\n    return check", 'D5'),
     Mutant('padded-check-args-swapped', LG, "        return check(ans, inp)\n    return _check", "        return check(inp, ans)\n    return _check", 'D5'),
+    # D7 (the solver; same edits as in C06)
+    Mutant('solver-step6-skips-covered-rows', MK, "                if self.row_covered[i]:\n                    self.C[i][j] += minval\n                    events += 1\n                if not self.col_covered[j]:",
+           "                if self.row_covered[i]:\n                    continue\n                if not self.col_covered[j]:", 'D7'),
+    Mutant('solver-step6-elif', MK, "                if not self.col_covered[j]:\n                    self.C[i][j] -= minval\n                    events += 1\n                if self.row_covered[i] and not self.col_covered[j]:\n                    events -= 2 # change reversed, no real difference\n",
+           "                elif not self.col_covered[j]:\n                    self.C[i][j] -= minval\n                    events += 1\n", 'D7'),
+    Mutant('solver-step1-subtracts-max', MK, "            minval = min(vals)", "            minval = max(vals)", 'D7'),
+    Mutant('solver-result-rows-over-n', MK, "        for i in range(self.original_length):", "        for i in range(self.n):", 'D7'),
     # D6
     Mutant('infer-literal-delimiter', LG, "        answers = expect.split(self.config['delimiter'])", "        answers = expect.split(',')", 'D6'),
     Mutant('infer-recursion-on-self', LG, "answers[idx] = self.config['subgrader'].infer_from_expect(entry)", "answers[idx] = self.infer_from_expect(entry)", 'D6'),
